@@ -110,7 +110,12 @@ Definition dispatch (W : nat) (lease : bool) (s : rstate) (w : wire) (c : conten
   | CRrc =>
       if (e =? 0) || negb (r_rrc s) then (s, [OAlert alert_fatal desc_unexpected_message; OErr])
       else (mark W s w, [OMark e q; ORrc])
-  | CBad => (s, [OAlert alert_fatal desc_decode_error; OErr])
+  | CBad =>
+      (* handleIncomingPacket: nothing vouches for an unprotected record (epoch 0, or typed
+         change_cipher_spec, which no suite authenticates): undecodable content is discarded;
+         protected content that does not decode is answered with decode_error *)
+      if (e =? 0) || (w_ctype w =? ct_ccs) then (s, [])
+      else (s, [OAlert alert_fatal desc_decode_error; OErr])
   end.
 
 (* a record typed change_cipher_spec decodes as CCS or not at all *)
